@@ -1,11 +1,169 @@
 import SigModel.Driver.Loop
+import SigModel.Spec.ShapesClient
 
-/-! Driver for C10 — stub (no model yet). -/
+/-! Driver for C10: ops `world mcu=0|1`, `state <name>`, `msg <doc> <pad> <k=v shape tokens…>`. -/
 namespace SigModel.Driver.C10
+open SigModel.Proto SigModel.ShapesClient
+
+abbrev KV := List (String × String)
+
+def parseKV (toks : List String) : KV :=
+  toks.filterMap fun t =>
+    let cs := t.toList
+    let k := cs.takeWhile (· ≠ '=')
+    let v := (cs.dropWhile (· ≠ '=')).drop 1
+    if k.length = cs.length then none
+    else some (String.ofList k, (dec (String.ofList v)).getD "�")
+
+def get (kv : KV) (k : String) : String := (kv.lookup k).getD ""
+def has (kv : KV) (k : String) : Bool := (kv.lookup k).isSome
+def flag (kv : KV) (k : String) : Bool := get kv k == "1"
+def natOf (kv : KV) (k : String) : Nat := (get kv k).toNat?.getD 0
+
+def urlClass (s : String) : UrlClass :=
+  if s == "e" then .empty else if s == "bad" then .bad else if s == "known" then .known else .unknown
+
+def url3 (s : String) : Url3 := if s == "e" then .empty else if s == "bad" then .bad else .ok
+
+def roomClass (kv : KV) (k : String) : RoomClass :=
+  let s := get kv k
+  if s == "e" then .empty else if s == "by" then .by else if s == "deny" then .deny
+  else .other (if hasPrefix "o:" s then dropS 2 s else s)
+
+def sidClass (s : String) : SidClass :=
+  if s == "e" then .empty else if s == "self" then .self else if s == "by" then .by else if s == "virt" then .virt else .other
+
+def uidClass (s : String) : UidClass :=
+  if s == "e" then .empty else if s == "self" then .self else if s == "by" then .by else .other
+
+def parseMsgPart (kv : KV) (p : String) : MessageMsg :=
+  { recipient := { rtype := get kv (p ++ ".rtype"), sid := sidClass (get kv (p ++ ".rsid")), uid := uidClass (get kv (p ++ ".ruid")) },
+    dataNonEmpty := flag kv (p ++ ".data"),
+    data := { jsonOk := get kv (p ++ ".dj") == "ok", dtype := get kv (p ++ ".dtype"),
+              roomType := (let r := get kv (p ++ ".drt"); if r == "valid" then .valid else if r == "invalid" then .invalid else .empty),
+              sdp := (let r := get kv (p ++ ".dsdp"); if r == "nostr" then .nostr else if r == "bad" then .bad else if r == "ok" then .ok else .none) } }
+
+def parseCommon (kv : KV) (p : String) : Common := { sid := get kv (p ++ ".sid"), room := roomClass kv (p ++ ".room") }
+
+def parseMessage (kv : KV) : ClientMessage :=
+  let idc := get kv "id"
+  { id := if idc == "p" then .pending else if idc == "o" then .other else .empty,
+    mtype := get kv "type",
+    typeUtf8 := get kv "type.utf8" != "0",
+    hello := if flag kv "hello" then some
+      { version := get kv "h.ver", resume := if get kv "h.resume" == "e" then .empty else .other,
+        featDialout := (get kv "h.feat").toList.contains 'd', featInCall := (get kv "h.feat").toList.contains 'i',
+        auth := if flag kv "h.auth" then some
+          { atype := get kv "h.atype", paramsNonEmpty := flag kv "h.params", url := urlClass (get kv "h.url"),
+            v2TokenOk := flag kv "h.v2", v1Accept := flag kv "h.v1",
+            v1User := (let u := get kv "h.v1user"; if u == "e" then .anon else if u == "r" then .restricted else .named),
+            ipOk := flag kv "h.ip", iBackend := urlClass (get kv "h.ibackend"), iRandLen := natOf kv "h.irnd", iTokenOk := flag kv "h.itok" }
+          else none }
+      else none,
+    bye := if flag kv "bye" then some () else none,
+    room := if flag kv "room" then some
+      { roomId := roomClass kv "r.id", sidEmpty := get kv "r.sid" == "e",
+        federation := if flag kv "r.fed" then some { sig := url3 (get kv "r.fsig"), url := url3 (get kv "r.furl"), tokenNonEmpty := flag kv "r.ftok" } else none }
+      else none,
+    message := if flag kv "message" then some (parseMsgPart kv "m") else none,
+    control := if flag kv "control" then some (parseMsgPart kv "c") else none,
+    internal := if flag kv "internal" then some
+      { itype := get kv "i.type",
+        add := if flag kv "i.add" then some { c := parseCommon kv "i.add", opts := flag kv "i.add.opts" } else none,
+        upd := if flag kv "i.upd" then some { c := parseCommon kv "i.upd", flags := (get kv "i.upd.flags").toNat?, incall := (get kv "i.upd.incall").toInt? } else none,
+        rem := if flag kv "i.rem" then some (parseCommon kv "i.rem") else none,
+        incall := if flag kv "i.incall" then some ((get kv "i.incall.v").toInt?.getD 0) else none,
+        dialout := if flag kv "i.dialout" then some
+          { dtype := get kv "i.d.type", room := roomClass kv "i.d.room", error := if flag kv "i.d.error" then some () else none,
+            status := if flag kv "i.d.status" then some (get kv "i.d.st") else none } else none }
+      else none,
+    transient := if flag kv "transient" then some
+      { ttype := get kv "t.type", key := get kv "t.key", value := kv.lookup "t.value" } else none }
+
+def parseFrame (kv : KV) : Frame :=
+  { size := natOf kv "size", binary := get kv "frame" == "bin",
+    dec := if get kv "dec" == "ok" then .ok (parseMessage kv) else .err }
+
+/-! ### rendering -/
+
+def insertSorted (x : String) : List String → List String
+  | [] => [x]
+  | y :: r => if x = y then y :: r else if x < y then x :: y :: r else y :: insertSorted x r
+
+def canon (l : List String) : List String := l.foldr insertSorted []
+
+def joinKinds (l : List String) : String :=
+  match canon l with
+  | [] => "-"
+  | c => "+".intercalate c
+
+def splitKinds (s : String) : List String := if s == "-" then [] else s.splitOn "+"
+
+def sub (a b : List String) : Bool := a.all b.contains
+
+/-- The model allows a set of outputs (`must ⊆ seen ⊆ must ∪ may`); print what was
+seen if it is allowed, else the model's `must` set (so that the diff shows). -/
+def renderSide (must may : List String) (seen : Option (List String)) : String :=
+  match seen with
+  | some l => if sub must l && sub l (must ++ may) then joinKinds l else joinKinds must ++ (if may.isEmpty then "" else "(+" ++ joinKinds may ++ ")")
+  | none => joinKinds must ++ (if may.isEmpty then "" else "(+" ++ joinKinds may ++ ")")
+
+def parseSeen (impl : List String) : Option Seen :=
+  let kv := impl.filterMap fun t =>
+    let cs := t.toList
+    let k := cs.takeWhile (· ≠ '=')
+    if k.length = cs.length then none else some (String.ofList k, String.ofList ((cs.dropWhile (· ≠ '=')).drop 1))
+  match kv.lookup "s", kv.lookup "b", kv.lookup "st" with
+  | some s, some b, some st => some { s := splitKinds s, b := splitKinds b, st := st, http := kv.lookup "http" }
+  | _, _, _ => none
+
+def render (o : Obs) (seen : Option Seen) : String :=
+  let stS := match o.st, seen with
+    | .same, _ => "same"
+    | .chg, _ => "chg"
+    | .any, some z => if z.st == "same" || z.st == "chg" then z.st else "same|chg"
+    | .any, none => "same|chg"
+  "s=" ++ renderSide o.sMust o.sMay (seen.map (·.s)) ++ " b=" ++ renderSide o.bMust o.bMay (seen.map (·.b)) ++ " st=" ++ stS ++
+    (match o.http with | some h => " http=" ++ h | none => "")
+
+/-! ### states the harness can put the sender in -/
+
+def sessOf (name : String) : Option Conn :=
+  let base : Sess := { internal := false, dialoutFeat := false, restrictedUser := false, restricted := false, anon := false, room := .none, fed := false }
+  if name == "nosession" then some .nosession
+  else if name == "session" then some (.session base)
+  else if name == "room" then some (.session { base with room := .by })
+  else if name == "roomr" then some (.session { base with room := .by, restrictedUser := true, restricted := true })
+  else if name == "internal" then some (.session { base with internal := true })
+  else if name == "internalroom" then some (.session { base with internal := true, room := .by })
+  else if name == "dialout" then some (.session { base with internal := true, dialoutFeat := true })
+  else none
 
 structure St where
-  dummy : Unit := ()
+  model : ShapesClient.St := ShapesClient.St.init
 
-def step (st : St) (_op _impl : List String) : St × String × String := (st, "bad-op", "na")
+def step (st : St) (op impl : List String) : St × String × String :=
+  match op with
+  | ["world", mcu] =>
+    ({ model := { ShapesClient.St.init with world := { mcu := mcu == "mcu=1", transient := [], virt := [] } } }, "ok", "ok")
+  | ["state", name] =>
+    match sessOf name with
+    | some c => ({ model := { st.model with conn := c, dialoutState := name == "dialout",
+                                             world := { st.model.world with virt := [] } } }, "ok", "ok")
+    | none => (st, "bad-op", "na")
+  | "msg" :: _doc :: _pad :: toks =>
+    let kv := parseKV toks
+    if get kv "dec" == "panic" then (st, "decoder-panic", "violated:decoder-panic") else
+    let f := parseFrame kv
+    if st.model.conn = .dead then (st, "dead", "na") else
+    let seen := parseSeen impl
+    match processFrame st.model f with
+    | .crash site => (st, "crash:" ++ enc site, "na")
+    | .ok o next =>
+      let v := match seen with
+        | some z => judge st.model f z
+        | none => "na"
+      ({ model := next }, render o seen, v)
+  | _ => (st, "bad-op", "na")
 
 end SigModel.Driver.C10
